@@ -25,6 +25,34 @@ CHECKS = {
   text="Complete solver verdict for the mint-terms predicate: for every Terms value, etching block, mint count and height <= u32::MAX, mintable() succeeds exactly when the statement's window/cap conditions hold and returns the amount; start()/end() are the later/earlier of absolute and saturating relative bounds. Only this predicate is decided - the counter update and cenotaph/unetched-rune clauses in RuneUpdater::mint are out of reach and stated as uncovered.",
   design_ref="DESIGN.md §3 C10",
   note="heights <= u32::MAX (ord's Height type); shim parent as for C35; RuneUpdater::mint / index_runes are NOT covered (HashMap + redb tables)."),
+ "C29": dict(
+  engine="E2-mir2smt",
+  technique="path-wise symbolic execution of the rustc MIR of crates/ordinals into SMT (z3 Int theory, cvc5 cross-check), one query per path per claim; translator validated against native execution each run; counterexamples replayed natively",
+  category="model_checking",
+  text="Solver verdict over ALL heights and ALL sats below the supply (no sampling): height<->sat bijection with consecutive numbering from 0, subsidy halving rule, epoch/cycle/period/degree/decimal/rarity/common/nineball/coin equal to their height/offset definitions, no panic for any u32 height, and the rarity supply table equals the exact counts. Division kernels that CBMC cannot finish become linear once the executor forks on the 33 epochs.",
+  design_ref="DESIGN.md §3 C29",
+  note="Trusts rustc's MIR dump, the MIR->SMT translator (vlib/mirexec.py, validated on ~340 native vectors per run), the core-function models listed in the evidence, z3 (cvc5 diff on a sample). Sat::palindrome and percentile are not decided."),
+ "C33": dict(
+  engine="E2-mir2smt",
+  technique="path-wise symbolic execution of the MIR of Rune::minimum_at_height / unlock_height into SMT (z3, cvc5 cross-check), forked per network and per STEPS interval; native replay of counterexamples",
+  category="model_checking",
+  text="Solver verdict for every u32 height (pairs h1<=h2 for monotonicity) and every u128 rune on each of the five networks: the minimum never increases, 13-letter names are etchable at the first rune block, the minimum is 0 once the schedule ends, and unlock_height(r) is exactly the least height whose minimum is <= r (None for reserved names).",
+  design_ref="DESIGN.md §3 C33",
+  note="As C29; Network variant order and halving interval are read from the pinned bitcoin crate source."),
+ "C34": dict(
+  engine="E2-mir2smt",
+  technique="path-wise symbolic execution of the MIR of Decimal::to_integer (lifted src/decimal.rs) and of Pile's Display (format arguments recorded, not rendered) into SMT; native replay",
+  category="model_checking",
+  text="Solver verdict for all u128 values, all u8 scales and divisibility 0..=38: to_integer is exact-or-error; and for all amounts/divisibilities the numbers Pile's Display prints decompose the amount exactly (fraction < 10^width, no trailing zero). The digit rendering itself and the print->parse composition are assumed (stated), the parse side is decided under C31.",
+  design_ref="DESIGN.md §3 C34",
+  note="Integer<->digit-string rendering (core::fmt, str::parse) is not encoded; see assumptions in the evidence."),
+ "C31": dict(
+  engine="E2-mir2smt",
+  technique="path-wise symbolic execution of the MIR of the text parsers over abstract strings (split/parse/count stubs with universally valid facts), in dev (overflow panics) and release (overflow wraps) MIR; z3 incl. floating-point theory for percentiles; native replay of a concrete string built from the model",
+  category="model_checking",
+  text="Decides, for every string, totality and 'accepts only what it denotes' for the sat notations (degree, decimal, percentile) and for decimal amounts - the parsers whose bugs are arithmetic (overflowing components, non-finite floats). Found and replayed four genuine defects on the pinned tree (see known_findings.txt).",
+  design_ref="DESIGN.md §3 C31",
+  note="Fragment of C31: rune names/IDs, satpoints, inscription IDs, outgoing, explorer queries are not covered. String primitives are stubs constrained only by facts valid for all strings; strings < 2^32 chars."),
 }
 
 NOT_APPLICABLE = {
